@@ -31,7 +31,7 @@ def model_check(tier, props):
     info = {}
     viol = []
     for cfg, steps in routes.items():
-        name = cfg_with_steps(cfg, steps, "_run_" + cfg)
+        name = cfg_with_steps(cfg, steps, "_run_%d_%s" % (os.getpid(), cfg))
         r = vlib.run_tlc("Heap", name, workers=14, timeout=2400 if tier == "thorough" else 900, xmx="24g")
         os.remove(os.path.join(vlib.SPEC, name + ".cfg"))
         if r.timed_out:
